@@ -1,4 +1,5 @@
 import FgaVerif.Proofs.Weights
+import FgaVerif.Proofs.ReachComplete
 /-! # C11 — wildcard sets are the reachable public types (specification side)
 
     As for C04, the real wildcard lists (nodes and edges, every forced traversal order) are compared
@@ -10,8 +11,10 @@ import FgaVerif.Proofs.Weights
     * `wildcard_set_no_duplicates` — the list has no duplicates.
     * `no_wildcard_reachable_empty` — if no `T:*` edge is reachable the list is empty.
 
-    Not proved: completeness of the fuelled search (every reachable `T:*` is listed) — checked per
-    input against the real code, whose lists must equal the specification's exactly. -/
+    * `wildcard_set_complete`, `wildcard_set_exact` — on a graph in which every referenced node exists
+      (`Closed`; evaluated by the driver on every input) every reachable `T:*` is listed: the fuel of
+      the search suffices (potential `|work| + |U| − |seen|` decreases by one per step), so the set is
+      **exactly** the public types reachable by following edges. -/
 namespace FgaVerif.Props.C11
 open FgaVerif.Spec.Weights
 
@@ -28,6 +31,15 @@ theorem no_wildcard_reachable_empty (g : SGraph) (n : String)
   | cons t rest =>
     obtain ⟨x, hr, hx⟩ := wildcard_set_sound g n t (by rw [hw]; simp)
     exact absurd hx (h x t hr)
+
+theorem wildcard_set_complete (g : SGraph) (hc : Closed g) (n t x : String)
+    (hr : Reach g true n x) (hw : HasWildcardEdge g x t) : t ∈ wildTargets g n :=
+  wildTargets_complete g hc n t x hr hw
+
+/-- the wildcard set of a node is exactly the set of reachable public restrictions -/
+theorem wildcard_set_exact (g : SGraph) (hc : Closed g) (n t : String) :
+    t ∈ wildTargets g n ↔ ∃ x, Reach g true n x ∧ HasWildcardEdge g x t :=
+  ⟨wildcard_set_sound g n t, fun ⟨x, hr, hw⟩ => wildcard_set_complete g hc n t x hr hw⟩
 
 /-! ### non-vacuity: a public restriction behind a tuple cycle -/
 def demo : SGraph := [
